@@ -9,7 +9,7 @@ PROP = {
     "rule": "one batch = one generated class hierarchy (chain of 4, diamond, random extra classes, generic classes Box<T>/Pair<K,V>, a generic chain H1<T>:H0<T>:Box<T> with plain subclasses, a class derived from string, plain aliases incl. a multi-line one, generic aliases M0<T>/R0<K,V>, 3 enums) + 40 generated annotation types (depth <= 4 quick, <= 6 for a quarter of the thorough batches) + 20 union batches of 1-5 types; "
             "one evaluation = (type or batch, law); distinct = FNV of (law, printed annotation(s)); non-trivial = the type AST has >= 3 nodes (ancestor law: distance >= 2 or a generic/primitive ancestor; union law: >= 2 elements)",
     "min_nontrivial": {"quick": 400000, "thorough": 2000000},
-    "max_secs": {"quick": 75, "thorough": 1000},
+    "max_secs": {"quick": 600, "thorough": 1500},
     "require_clauses": ["law:reflexive-same", "law:reflexive-reparsed", "law:diag-reflexive", "law:member-own", "law:member-annotated", "law:ancestor", "law:ancestor:generic-descendant", "law:any", "law:unknown", "law:union-batch"],
     "assumptions": COMMON_ASSUME + [
         "types are obtained through `---@type <T>` annotations on locals (and a few literal expressions for the union law); a type the annotation pipeline collapses (e.g. `unknown[]` -> unknown) is tested as what it collapsed to",
